@@ -57,6 +57,11 @@ let doc o cs =
            match get_fragment v (nat_of_int i) with
            | Inl f -> frag_tag f
            | Inr r -> "E" ^ si r) in
+       (* far past the end (2^32, 2^64-2, 2^64-1): C11_get_fragment (get_fragment v i = inr (i - count) past the end) gives the remaining distance for every
+          index; the unary index of the model is not built for these *)
+       let far = List.map (fun i -> Printf.sprintf "E%Lu" (Int64.sub i (Int64.of_int count)))
+           [4294967296L; -2L; -1L] in
+       let frags = frags @ far in
        let trav = List.mapi (fun i f -> string_of_int i ^ frag_tag f) tr in
        let b = Buffer.create 128 in
        walk v cm O b;
